@@ -496,6 +496,59 @@ pub fn judge(text: &str, cyclic: bool) -> Result<bool, (String, String)> {
     Ok(cyclic || codes.is_empty())
 }
 
+/// the same unit given to the analyzer as two or three sources (the declarations dealt out by
+/// `salt`): "a compilation unit is rejected as recursive exactly when ..." - a cycle is a cycle
+/// wherever the files are cut.  Returns None when the text has fewer than two declarations.
+pub fn judge_split(text: &str, cyclic: bool, salt: u64) -> Option<Result<bool, (String, String)>> {
+    let mut chunks: Vec<String> = vec![];
+    let mut cur = String::new();
+    for line in text.split_inclusive('\n') {
+        cur.push_str(line);
+        let l = line.trim_end().to_ascii_uppercase();
+        if l == "END_FUNCTION_BLOCK" || l == "END_TYPE" || l == "END_FUNCTION" || l == "END_PROGRAM" || l == "END_CONFIGURATION" {
+            chunks.push(std::mem::take(&mut cur));
+        }
+    }
+    if !cur.trim().is_empty() {
+        chunks.push(cur);
+    }
+    if chunks.len() < 2 {
+        return None;
+    }
+    let nfiles = 2 + (salt % 2) as usize;
+    let mut files: Vec<String> = vec![String::new(); nfiles];
+    for (k, c) in chunks.iter().enumerate() {
+        let f = (crate::tape::mix(salt ^ (k as u64).wrapping_mul(0x9E37)) % nfiles as u64) as usize;
+        files[f].push_str(c);
+    }
+    let files: Vec<String> = files.into_iter().filter(|f| !f.trim().is_empty()).collect();
+    if files.len() < 2 {
+        return None;
+    }
+    let mut libs = vec![];
+    for (i, f) in files.iter().enumerate() {
+        match crate::panicx::catch(|| ironplc_parser::parse_program(f, &ironplc_dsl::core::FileId::from_string(&format!("c07_{}.st", i)), &ironplc_parser::options::ParseOptions::default())) {
+            Ok(Ok(l)) => libs.push(l),
+            Ok(Err(e)) => return Some(Err(("generator-health".into(), format!("a part of the graph program does not parse: {} {}", e.code, e.primary.message)))),
+            Err((loc, m)) => return Some(Err(("panic".into(), format!("{} {}", loc, m)))),
+        }
+    }
+    let refs: Vec<&ironplc_dsl::common::Library> = libs.iter().collect();
+    let codes: Vec<String> = match crate::panicx::catch(|| ironplc_analyzer::stages::analyze(&refs)) {
+        Ok(Ok(())) => vec![],
+        Ok(Err(ds)) => ds.iter().map(|d| d.code.clone()).collect(),
+        Err((loc, m)) => return Some(Err(("panic".into(), format!("{} {}", loc, m)))),
+    };
+    let recursive = codes.iter().any(|c| c == "P0010" || c == "P0013");
+    if cyclic && !recursive {
+        return Some(Err(("cycle-accepted".into(), format!("given as {} sources: the declaration graph has a cycle but no recursion code was reported (codes {:?})", files.len(), codes))));
+    }
+    if !cyclic && recursive {
+        return Some(Err(("acyclic-rejected".into(), format!("given as {} sources: the declaration graph is acyclic but was reported as recursive (codes {:?})", files.len(), codes))));
+    }
+    Some(Ok(cyclic || codes.is_empty()))
+}
+
 fn check_graph(g: &Graph, salt: u64, arrays: bool, stats: &mut Stats, counting: bool) -> Result<(), Failure> {
     let cyc = g.cyclic();
     if g.n <= 4 && cyc != g.cyclic_closure() {
@@ -561,6 +614,13 @@ fn check_graph(g: &Graph, salt: u64, arrays: bool, stats: &mut Stats, counting: 
             }
         }
         r.map_err(|(k, d)| Failure::new(&format!("graph-{}", kind), &k, format!("{}: {}", g.describe(), d), json!({"graph": g.describe(), "cyclic": cyc, "text": text, "realisation": kind})))?;
+        // the same unit as several sources
+        if let Some(r2) = judge_split(&text, cyc, salt) {
+            if counting {
+                stats.class(&format!("{}.given-as-several-sources", kind));
+            }
+            r2.map_err(|(k, d)| Failure::new(&format!("graph-{}", kind), &k, format!("{}: {}", g.describe(), d), json!({"graph": g.describe(), "cyclic": cyc, "text": text, "realisation": kind, "split_salt": salt})))?;
+        }
     }
     Ok(())
 }
